@@ -614,7 +614,7 @@ def _run_task(task, seed):
     try:
         # every scenario runs under path exploration: a data-dependent branch of the real code on symbolic data
         # (bool()/int() of a term) forks the scenario instead of aborting it
-        paths = explore(ctx, lambda: fn(ctx, **params), max_paths=64, tag="scenario-path")
+        paths = explore(ctx, lambda: fn(ctx, **params), max_paths=getattr(fn, "max_paths", 32), tag="scenario-path")
         rec["paths"] = len(paths)
     except Exception as e:
         ctx.disable_pruning()
